@@ -195,6 +195,7 @@ impl Check for C11 {
         let mut rx_seen = 0usize;
         let mut viol: Vec<(String, String, String)> = Vec::new();
         let mut last_from: std::collections::BTreeMap<(usize, Pid), View> = Default::default();
+        let mut last_seq_from: std::collections::BTreeMap<(usize, Pid), u16> = Default::default();
         let mut bmca_at_slave_loss: Option<u64> = None;
         let mut bmca_at_quality_change: Option<u64> = None;
         let mut had_slave = false;
@@ -316,10 +317,20 @@ impl Check for C11 {
                 }
                 let pd = node.inst.parent_ds();
                 let parent_now = Pid::new(pd.parent_port_identity.clock_identity.0, pd.parent_port_identity.port_number);
-                {
+                // "last Announce" means last in the sender's order: a copy that arrives after a newer one
+                // (older sequenceId) is stale and is not what the parent "last announced"
+                let fresh = match last_seq_from.get(&(r.port, f.hdr.source)) {
+                    Some(prev) => f.hdr.seq.wrapping_sub(*prev) < u16::MAX / 2,
+                    None => true,
+                };
+                if fresh {
+                    last_seq_from.insert((r.port, f.hdr.source), f.hdr.seq);
                     let mut v = view_of_announce(&f.hdr, a);
                     v.steps_removed = v.steps_removed.wrapping_add(1);
                     last_from.insert((r.port, f.hdr.source), v);
+                } else {
+                    w.out.probe("stale_announce_copy_received");
+                    continue;
                 }
                 if r.state_before == PState::Slave && node.ports[r.port].state() == PState::Slave && f.hdr.source == parent_now {
                     let mut want = view_of_announce(&f.hdr, a);
